@@ -219,6 +219,8 @@ def _product_specs(prop, tier, seed):
         tl += templates.enumerated(2, seed, 60)
         gap_bits, k_bits, max_paths = 26, 40, 3000
     tl = [(n, l) for n, l in tl if templates.natural_alignment(l)]
+    if prop == 'C12':
+        tl += templates.C12_ONLY
     return [('harness.layout', 'product_task', (prop, n, l, gap_bits, k_bits, max_paths)) for n, l in tl], len(tl), gap_bits
 
 
